@@ -134,6 +134,26 @@ pub fn gen_case(prop: &str, run_seed: u64, tier: Tier) -> TreeCase {
     }
 }
 
+/// Large inputs (see `gen_big_tree_seq`); fewer constructions per case, they are expensive.
+pub fn gen_big_case(prop: &str, run_seed: u64, tier: Tier) -> TreeCase {
+    let mut c = gen_case(prop, run_seed, tier);
+    let mut rng = stream(run_seed, "big");
+    let cfg = TreeGenCfg {
+        degree: if c.alias.is_quad() { 4 } else { 2 },
+        table_indexed: c.alias.is_huffman(),
+        ty: c.ty,
+        tier,
+    };
+    let (seq, profile) = crate::gen::gen_big_tree_seq(&mut rng, &cfg);
+    c.seq = seq;
+    c.profile = profile;
+    if c.orders.len() > 3 {
+        // canonical, one seeded, the real hasher
+        c.orders = vec![c.orders[0].clone(), c.orders[2].clone(), c.orders[c.orders.len() - 1].clone()];
+    }
+    c
+}
+
 /// Small alphabets with every enumeration order: d <= 4 both maps exhaustively, d = 5, 6 the length map
 /// exhaustively under a few frequency-map orders.
 pub fn gen_exhaustive_case(prop: &str, run_seed: u64) -> TreeCase {
